@@ -181,3 +181,11 @@ pub fn run_pipeline_captured(sh: &mut Shell, line: &str) -> Result<CommandResult
 pub fn run_calculator(line: &str) -> Result<String, String> {
     crate::core::run_calculator(line).map_err(|e| e.to_string())
 }
+
+/// what the `glob` crate yields for a pattern in the current directory (None = pattern error)
+pub fn glob_query(pattern: &str) -> Option<Vec<String>> {
+    match glob::glob(pattern) {
+        Ok(paths) => Some(paths.filter_map(|p| p.ok()).map(|p| p.to_string_lossy().to_string()).collect()),
+        Err(_) => None,
+    }
+}
